@@ -1,15 +1,234 @@
 package main
 
 import (
+	"fmt"
+	"go/ast"
+	"go/printer"
+	"go/token"
+	"go/types"
+	"os"
+	"os/exec"
+	"sort"
 	"strings"
 )
 
+// genFacts emits plain data about the source that several theorems take as premises (C15, C16, C17).
 func genFacts(repo string, field, scal, root *pkgSrc, out string) {
 	var b strings.Builder
 	b.WriteString(header)
 	b.WriteString("\nnamespace Facts\n\n")
 	b.WriteString("/-- parameters whose cells the translated function never rebinds (hence unchanged by the call) -/\n")
 	b.WriteString("def untouched : List (String × List String) := [\n  " + strings.Join(untouchedFacts, ",\n  ") + "]\n\n")
+
+	// C17: transitive import closure of the root package as the Go tool computes it
+	cmd := exec.Command("go", "list", "-deps", ".")
+	cmd.Dir = repo
+	cmd.Env = append(os.Environ(), "GOFLAGS=-mod=mod", "GOPROXY=off", "GOSUMDB=off", "GOTOOLCHAIN=local")
+	o, err := cmd.Output()
+	if err != nil {
+		fatal("go list -deps failed: %v", err)
+	}
+	deps := strings.Fields(string(o))
+	sort.Strings(deps)
+	b.WriteString("/-- `go list -deps .`: every package linked into any program that imports the root package -/\n")
+	b.WriteString("def rootDeps : List String := [" + quoteAll(deps) + "]\n\n")
+
+	// hashes obtained through the crypto registry: crypto.<ID>.New() / .Size() / .Available()
+	ids := map[string]bool{}
+	direct := map[string]bool{}
+	for _, f := range root.files {
+		ast.Inspect(f, func(n ast.Node) bool {
+			sel, ok := n.(*ast.SelectorExpr)
+			if !ok {
+				return true
+			}
+			if inner, ok := sel.X.(*ast.SelectorExpr); ok {
+				if id, ok := inner.X.(*ast.Ident); ok && id.Name == "crypto" && sel.Sel.Name == "New" {
+					ids[inner.Sel.Name] = true
+				}
+			}
+			if id, ok := sel.X.(*ast.Ident); ok && sel.Sel.Name == "New" && (id.Name == "sha256" || id.Name == "sha512" || id.Name == "sha3") {
+				direct[id.Name] = true
+			}
+			return true
+		})
+	}
+	b.WriteString("/-- hash identifiers looked up through the `crypto` registry (`crypto.<ID>.New()`) in the root package -/\n")
+	b.WriteString("def registryHashes : List String := [" + quoteAll(sortedKeys(ids)) + "]\n\n")
+	b.WriteString("/-- hash packages whose constructor is called directly (no registry lookup) -/\n")
+	b.WriteString("def directHashes : List String := [" + quoteAll(sortedKeys(direct)) + "]\n\n")
+
+	// C16: package-level variables and every statement that can write one
+	gl, writes, addr := globalFacts(repo)
+	b.WriteString("/-- package-level variables of the three packages -/\n")
+	b.WriteString("def globalVars : List String := [" + quoteAll(gl) + "]\n\n")
+	b.WriteString("/-- statements that assign to, increment, or call a pointer-receiver method on a package-level variable -/\n")
+	b.WriteString("def globalWrites : List String := [" + quoteAll(writes) + "]\n\n")
+	b.WriteString("/-- places where the address of (part of) a package-level variable is passed: `callee#argIndex` -/\n")
+	b.WriteString("def globalAddrArgs : List String := [" + quoteAll(addr) + "]\n\n")
+	bound, body := bitsLoopFacts(root)
+	b.WriteString("/-- `for i := range N` in `(*Scalar).Bits`: the trip count N and the text of the loop body -/\n")
+	fmt.Fprintf(&b, "def bitsLoopBound : Nat := %d\n", bound)
+	fmt.Fprintf(&b, "def bitsLoopBody : String := %q\n\n", body)
+	apis, sw := sliceWriteFacts()
+	b.WriteString("/-- exported functions of the root package taking a byte-slice parameter -/\n")
+	b.WriteString("def sliceAPIs : List String := [" + quoteAll(apis) + "]\n\n")
+	b.WriteString("/-- every statement through which such a function (or a callee) can write to a caller-supplied slice -/\n")
+	b.WriteString("def sliceParamWrites : List String := [" + quoteAll(sw) + "]\n\n")
 	b.WriteString("end Facts\n")
 	writeIfChanged(out+"/Facts.lean", b.String())
+}
+
+var sharedImporter *srcImporter
+
+func rootIdent(e ast.Expr) *ast.Ident {
+	for {
+		switch x := e.(type) {
+		case *ast.Ident:
+			return x
+		case *ast.SelectorExpr:
+			e = x.X
+		case *ast.IndexExpr:
+			e = x.X
+		case *ast.StarExpr:
+			e = x.X
+		case *ast.ParenExpr:
+			e = x.X
+		case *ast.SliceExpr:
+			e = x.X
+		default:
+			return nil
+		}
+	}
+}
+
+func globalFacts(repo string) (globals, writes, addr []string) {
+	imp := sharedImporter
+	info := imp.info
+	isGlobal := func(id *ast.Ident) (string, bool) {
+		if id == nil {
+			return "", false
+		}
+		v, ok := info.Uses[id].(*types.Var)
+		if !ok {
+			return "", false
+		}
+		if v.Pkg() == nil || !strings.HasPrefix(v.Pkg().Path(), modPath) || v.Parent() != v.Pkg().Scope() {
+			return "", false
+		}
+		return strings.TrimPrefix(strings.TrimPrefix(v.Pkg().Path(), modPath), "/") + "." + v.Name(), true
+	}
+	for path, pkg := range imp.pkgs {
+		_ = path
+		for _, n := range pkg.Scope().Names() {
+			if v, ok := pkg.Scope().Lookup(n).(*types.Var); ok {
+				globals = append(globals, strings.TrimPrefix(strings.TrimPrefix(pkg.Path(), modPath), "/")+"."+v.Name())
+			}
+		}
+	}
+	sort.Strings(globals)
+	pos := func(n ast.Node) string {
+		p := imp.fset.Position(n.Pos())
+		return fmt.Sprintf("%s:%d", strings.TrimPrefix(p.Filename, repo+"/"), p.Line)
+	}
+	for _, files := range imp.files {
+		for _, f := range files {
+			ast.Inspect(f, func(n ast.Node) bool {
+				switch x := n.(type) {
+				case *ast.AssignStmt:
+					if x.Tok == token.DEFINE {
+						return true
+					}
+					for _, l := range x.Lhs {
+						if g, ok := isGlobal(rootIdent(l)); ok {
+							writes = append(writes, pos(x)+" assign "+g)
+						}
+					}
+				case *ast.IncDecStmt:
+					if g, ok := isGlobal(rootIdent(x.X)); ok {
+						writes = append(writes, pos(x)+" incdec "+g)
+					}
+				case *ast.CallExpr:
+					if sel, ok := x.Fun.(*ast.SelectorExpr); ok {
+						if fn, ok := info.Uses[sel.Sel].(*types.Func); ok {
+							if sig, ok := fn.Type().(*types.Signature); ok && sig.Recv() != nil {
+								if _, ptr := sig.Recv().Type().(*types.Pointer); ptr {
+									if g, ok := isGlobal(rootIdent(sel.X)); ok {
+										writes = append(writes, pos(x)+" pointer-method "+fn.Name()+" on "+g)
+									}
+								}
+							}
+						}
+					}
+					for i, a := range x.Args {
+						if u, ok := a.(*ast.UnaryExpr); ok && u.Op == token.AND {
+							if g, ok := isGlobal(rootIdent(u.X)); ok {
+								callee := "?"
+								switch f := x.Fun.(type) {
+								case *ast.SelectorExpr:
+									callee = f.Sel.Name
+								case *ast.Ident:
+									callee = f.Name
+								}
+								addr = append(addr, fmt.Sprintf("%s#%d %s", callee, i, g))
+							}
+						}
+					}
+				}
+				return true
+			})
+		}
+	}
+	sort.Strings(writes)
+	sort.Strings(addr)
+	// de-duplicate
+	addr = uniq(addr)
+	return
+}
+
+func uniq(xs []string) []string {
+	var out []string
+	for i, x := range xs {
+		if i == 0 || x != xs[i-1] {
+			out = append(out, x)
+		}
+	}
+	return out
+}
+
+// bitsLoopFacts reads the single loop of (*Scalar).Bits.
+func bitsLoopFacts(root *pkgSrc) (int, string) {
+	fd, ok := root.funcs["Scalar.Bits"]
+	if !ok {
+		fatal("method Scalar.Bits not found (renamed or removed): the model cannot be regenerated")
+	}
+	bound, body := 0, ""
+	n := 0
+	ast.Inspect(fd.Body, func(nd ast.Node) bool {
+		switch x := nd.(type) {
+		case *ast.RangeStmt:
+			n++
+			if v, ok := constExpr(x.X); ok {
+				fmt.Sscan(v, &bound)
+			}
+			body = nodeText(root.fset, x.Body)
+		case *ast.ForStmt:
+			n++
+			if a, b, ok := countedLoop(x); ok && a == 0 {
+				bound = b
+			}
+			body = nodeText(root.fset, x.Body)
+		}
+		return true
+	})
+	if n != 1 {
+		return 0, fmt.Sprintf("expected exactly one loop, found %d", n)
+	}
+	return bound, body
+}
+
+func nodeText(fset *token.FileSet, n ast.Node) string {
+	var sb strings.Builder
+	printer.Fprint(&sb, fset, n)
+	return strings.Join(strings.Fields(sb.String()), " ")
 }
